@@ -288,6 +288,9 @@ def nibabel_image_to_precomputed(img,
         prescaling_inter = proxy.inter
         proxy._slope = prescaling_slope * postscaling_slope
         proxy._inter = prescaling_inter * postscaling_slope + postscaling_inter
+        # nibabel returns the stored (unscaled) data type if the resulting
+        # scaling is the identity
+        input_dtype = proxy[tuple(0 for _ in shape)].dtype
 
     # Transformations applied to the voxel values
     chunk_transformer = (
